@@ -20,6 +20,7 @@ def c08_units(tier):
     n = "3" if tier == "quick" else "4"
     return [
         Unit("ready-blocked-vs-spec", ["c08.go"], "zzC08_ReadyBlocked_N" + n, {"loop": 20}, bounds="N=%s items, any states/claims/edges/epic membership, no invariant beyond Tasks[k].ID=k" % n),
+        Unit("claim-oldest", HSCMD, "zzCmd_ClaimOldest", dict(STUB, only="C08/"), bounds="store of 3 items; bare `claim` with any --epic filter through the real RunClaimOldestReady / readyTasks: the chosen task is ready, in scope, and no other ready task in scope is older (ties by id)"),
     ]
 
 
@@ -93,6 +94,7 @@ def c14_units(tier):
     return [
         Unit("new-task-epic", HS14, "zzC14_NewTaskEpic", STUB, bounds="store of 3 items + 1 pruned id obeying I1-I5; epic argument any id (live epic, task in epic, root task, unknown, pruned, empty); task or epic creation"),
         Unit("set-epic", HS14, "zzC14_SetEpic", STUB, bounds="same store; set with an epic field (any id) plus any other fields on any id"),
+        Unit("prune-keeps-references", HS14, "zzC09_PruneRun", dict(STUB, only="C14/"), bounds="store of 3 items + 1 tombstone whose epic references are valid; prune --yes through the real selectPruneTargets / runPrune and replay"),
     ]
 
 
